@@ -89,7 +89,12 @@ def _observe(M, seed):
     out = {"species": {s: float(v) for s, v in M.get_species_dictionary().items()}, "params": {k: float(v) for k, v in M.get_parameter_dictionary().items()}}
     def cols(res):
         a = np.asarray(res.py_get_result()); return {s: [fhex(v) for v in a[:, s2i[s]]] for s in names}
-    out["det"] = cols(py_simulate_model(T, Model=M, stochastic=False, return_dataframe=False))
+    try: out["det"] = cols(py_simulate_model(T, Model=M, stochastic=False, return_dataframe=False))
+    except TypeError as e:
+        # LSODA stepped a consumed species a hair below zero and a Hill term raised (DESIGN.md, observations): the same definition
+        # raises the same way however it was reached; the token stands for the run
+        if "Cannot convert 'complex'" not in str(e): raise
+        out["det"] = "left the non-negative domain (complex power)"
     for mode, kw in (("ssa", {}), ("safe", {"safe": True}), ("delay", {"delay": True}), ("volume", {"volume": 2.0})):
         py_seed_random(seed); out[mode] = cols(py_simulate_model(T, Model=M, stochastic=True, return_dataframe=False, **kw))
     py_seed_random(seed); again = cols(py_simulate_model(T, Model=M, stochastic=True, return_dataframe=False))
@@ -150,7 +155,8 @@ def impl_case(case):
             except TypeError as e:
                 # loose integrator tolerances let LSODA step a count below zero; a Hill term then raises "Cannot convert 'complex'"
                 # (DESIGN.md, observations): the run is abandoned, the history goes on
-                if op[1] == "det_loose" and "Cannot convert 'complex'" in str(e): continue
+                # (seen with the default tolerances too, in a thorough run: a species consumed by three reactions next to a Hill term in it)
+                if op[1] in ("det", "det_loose") and "Cannot convert 'complex'" in str(e): continue
                 raise
             after = (dict(M.get_species_dictionary()), dict(M.get_parameter_dictionary()))
             nan_eq = lambda a, b: set(a) == set(b) and all(a[x] == b[x] or (a[x] != a[x] and b[x] != b[x]) or (a[x] == -1 and b[x] == 0) for x in a)
